@@ -144,6 +144,13 @@ struct RingObj
     r.append(V(double(v), 2.0 * v + 1));
     vh::Ev e("append"); e.i("v", v); observe(e); return e.done();
   }
+  // an element of the ring itself handed back by reference (argument aliasing): the value appended is the one the element had
+  std::string appendOwn(size_t k)
+  {
+    const long long v = (long long)r[k].x();
+    r.append(r[k]);
+    vh::Ev e("append"); e.i("v", v); observe(e); return e.done();
+  }
   std::string clear()
   {
     r.clear();
@@ -170,6 +177,9 @@ static void runScript(const char * path, vh::Out & so, vh::Out & ro)
           ro.put(vh::Ev("save"));
           {RingObj c = o; ro.puts(c.append(nxt)); ro.put(vh::Ev("restore"));}
           {RingObj c = o; ro.puts(c.clear()); ro.put(vh::Ev("restore"));}
+          for (size_t k : {(size_t)0, o.r.size() > 0 ? o.r.size() - 1 : (size_t)0, o.r.size() / 2}) {
+            if (k < o.r.size()) {RingObj c = o; ro.puts(c.appendOwn(k)); ro.put(vh::Ev("restore"));}
+          }
         }
       }
     } else {
@@ -232,7 +242,9 @@ static void randomRing(vh::Rng & r, vh::Out & ro)
   long long nxt = 1;
   int clearEvery = (int)r.range(2, 4 * C + 2);
   for (int s = 0; s < len; ++s) {
-    if (r.range(0, clearEvery) == 0) {ro.puts(o.clear());} else {ro.puts(o.append(nxt++));}
+    if (r.range(0, clearEvery) == 0) {ro.puts(o.clear());}
+    else if (o.r.size() > 0 && r.coin(1, 6)) {ro.puts(o.appendOwn((size_t)r.range(0, (long long)o.r.size() - 1)));}
+    else {ro.puts(o.append(nxt++));}
   }
 }
 
